@@ -3,6 +3,7 @@ package main
 import (
 	"fmt"
 	"path"
+	"sort"
 	"strconv"
 	"strings"
 
@@ -20,6 +21,10 @@ type caseT struct {
 	Name   string `json:"name,omitempty"`
 	Method string `json:"method,omitempty"`
 	Typed  bool   `json:"typed,omitempty"` // exit/method: through a variable of type *log.Logger
+	// exit/flagset: how the set is made (fnvalue | var | conv | typedvar); exit/flagsetinit: which set Init is called on
+	// (zero | new | cmdline); io/logger: prefix = the token is the prefix set through the package-level log.SetPrefix
+	Variant string `json:"variant,omitempty"`
+	Bad     string `json:"bad,omitempty"` // exit/flagset*: the offending arguments: "" an undefined flag | value | help
 
 	// import
 	Sets   []string `json:"sets,omitempty"`
@@ -49,13 +54,20 @@ var optArgs = []string{"prog", "optarg1", "optarg2"}
 
 const optStdin = "OPTIN1 OPTIN2 OPTIN3\n"
 
-var hostLoggerSources = map[string]bool{"log.Default": true, "log/slog.NewLogLogger": true, "log/syslog.NewLogger": true}
+// functions that still hand out the host's own *log.Logger (F12 as narrowed by 77e1d98: log.Default is repaired)
+var hostLoggerSources = map[string]bool{"log/slog.NewLogLogger": true, "log/syslog.NewLogger": true}
 
 var flagPkgLevel = map[string]bool{}
+
+// functions of log/slog that go through its default logger
+var slogDefault = map[string]bool{}
 
 func init() {
 	for _, n := range strings.Fields("Arg Args Bool BoolFunc BoolVar Duration DurationVar Float64 Float64Var Func Int Int64 Int64Var IntVar Lookup NArg NFlag Parse Parsed PrintDefaults Set String StringVar TextVar Uint Uint64 Uint64Var UintVar Usage Var Visit VisitAll") {
 		flagPkgLevel[n] = true
+	}
+	for _, n := range strings.Fields("Debug DebugContext Info InfoContext Warn WarnContext Error ErrorContext Log LogAttrs Default With") {
+		slogDefault[n] = true
 	}
 }
 
@@ -68,8 +80,8 @@ func (c caseT) class() string {
 		if c.What == "method" && hostLoggerSources[c.Pkg+"."+c.Name] {
 			return "obtains a host *log.Logger"
 		}
-		if c.What == "flagset" && c.Name == "ExitOnError" {
-			return "flag.ExitOnError FlagSet"
+		if c.What == "flagsetinit" && c.Name == "ExitOnError" {
+			return "FlagSet.Init with flag.ExitOnError"
 		}
 		if c.What == "fn" && c.Pkg == "flag" && flagPkgLevel[c.Name] {
 			return "package-level flag function"
@@ -80,6 +92,9 @@ func (c caseT) class() string {
 		}
 		if c.What == "fn" && c.Pkg == "flag" && flagPkgLevel[c.Name] {
 			return "package-level flag function"
+		}
+		if c.What == "fn" && c.Pkg == "log/slog" && slogDefault[c.Name] {
+			return "log/slog default logger"
 		}
 		if c.What == "var" && c.Pkg == "os" && !c.Cfg.SpecialStdio {
 			switch {
@@ -95,8 +110,16 @@ func (c caseT) class() string {
 	return ""
 }
 
+// importIPath: the path gta looks up — a relative path is first rewritten relative to the importing package, here the
+// main package (src.go relativePath: it stays relative) — with path.Dir / path.Base of it.
 func (c caseT) importIPath() (full, dir, base string) {
-	return c.Path, path.Dir(c.Path), path.Base(c.Path)
+	p := c.Path
+	if strings.HasPrefix(p, "./") || strings.HasPrefix(p, "../") {
+		if p = path.Join(".", p); !(strings.HasPrefix(p, "./") || strings.HasPrefix(p, "../")) {
+			p = "./" + p
+		}
+	}
+	return p, path.Dir(p), path.Base(p)
 }
 
 // line renders the protocol line for the Lean driver.
@@ -111,6 +134,8 @@ func (c caseT) line() string {
 			return "C13 exit " + c.Cfg.sexp() + " method " + q(c.Pkg) + " " + q(c.Name) + " " + q(c.Method)
 		case "flagset":
 			return "C13 exit " + c.Cfg.sexp() + " flagset " + q(c.Name)
+		case "flagsetinit":
+			return "C13 exit " + c.Cfg.sexp() + " flagsetinit " + q(c.Name)
 		}
 	case "io":
 		switch c.What {
@@ -131,7 +156,14 @@ func (c caseT) line() string {
 		if form == "named" {
 			form = "(named alias)"
 		}
-		return "C13 import " + common.QL(c.Sets) + " " + form + " " + q(full) + " " + q(dir) + " " + q(base) + " " + common.B(c.GoPath && srcTree[normPath(c.Path)])
+		var tree []string
+		if c.GoPath {
+			for p := range srcTree {
+				tree = append(tree, p)
+			}
+			sort.Strings(tree)
+		}
+		return "C13 import " + common.QL(c.Sets) + " " + form + " " + q(full) + " " + q(dir) + " " + q(base) + " " + common.QL(tree)
 	case "opts":
 		return c.optsLine()
 	case "env":
@@ -196,15 +228,55 @@ func (c caseT) script() string {
 				body = "\tvar l *log.Logger = " + mk + "\n\tl." + c.Method + methodArgs(c.Method)
 			}
 			return prog(dedup(imports), body)
-		case "flagset":
-			return prog([]string{"flag", "fmt", "io"}, "\tfs := flag.NewFlagSet(\"x\", flag."+c.Name+")\n\tfs.SetOutput(io.Discard)\n\terr := fs.Parse([]string{\"-nope\"})\n\tfmt.Print(err != nil)")
+		case "flagset", "flagsetinit":
+			var mk string
+			if c.What == "flagset" {
+				switch c.Variant {
+				case "fnvalue":
+					mk = "\tmk := flag.NewFlagSet\n\tfs := mk(\"x\", flag." + c.Name + ")"
+				case "var":
+					mk = "\th := flag." + c.Name + "\n\tfs := flag.NewFlagSet(\"x\", h)"
+				case "conv":
+					mk = "\tfs := flag.NewFlagSet(\"x\", flag.ErrorHandling(" + map[string]string{"ContinueOnError": "0", "ExitOnError": "1", "PanicOnError": "2"}[c.Name] + "))"
+				case "typedvar":
+					mk = "\tvar fs *flag.FlagSet = flag.NewFlagSet(\"x\", flag." + c.Name + ")"
+				default:
+					mk = "\tfs := flag.NewFlagSet(\"x\", flag." + c.Name + ")"
+				}
+			} else {
+				switch c.Variant {
+				case "new":
+					mk = "\tfs := flag.NewFlagSet(\"x\", flag.ContinueOnError)\n\tfs.Init(\"y\", flag." + c.Name + ")"
+				case "cmdline":
+					mk = "\tflag.CommandLine.Init(\"y\", flag." + c.Name + ")\n\tfs := flag.CommandLine"
+				default:
+					mk = "\tvar fs0 flag.FlagSet\n\tfs := &fs0\n\tfs.Init(\"x\", flag." + c.Name + ")"
+				}
+			}
+			parse := "fs.Parse([]string{\"-nope\"})"
+			switch c.Bad {
+			case "value":
+				mk += "\n\tfs.Int(\"n\", 0, \"u\")"
+				parse = "fs.Parse([]string{\"-n=x\"})"
+			case "help":
+				parse = "fs.Parse([]string{\"-h\"})"
+			}
+			return prog([]string{"flag", "fmt", "io"}, mk+"\n\tfs.SetOutput(io.Discard)\n\terr := "+parse+"\n\tfmt.Print(err != nil)")
 		}
 	case "io":
 		switch c.What {
 		case "builtin":
 			return prog(nil, "\t"+c.Name+`("`+tok+`")`)
 		case "logger":
-			return prog([]string{c.Pkg}, "\t"+path.Base(c.Pkg)+"."+c.Name+`().Print("`+tok+`")`)
+			if c.Variant == "prefix" {
+				// the package-level functions and the logger of log.Default() are one logger
+				return prog([]string{c.Pkg}, "\tlog.SetPrefix(\""+tok+"\")\n\t"+path.Base(c.Pkg)+"."+c.Name+`().Print("x")`)
+			}
+			m := c.Method
+			if m == "" {
+				m = "Print"
+			}
+			return prog([]string{c.Pkg}, "\t"+path.Base(c.Pkg)+"."+c.Name+`().`+m+methodArgs(m))
 		case "var":
 			switch c.Name {
 			case "Stdout", "Stderr":
@@ -237,6 +309,14 @@ func (c caseT) script() string {
 				return prog([]string{"flag"}, "\tflag.String(\""+name+"\", \"\", \"usage\")\n\tflag.PrintDefaults()")
 			case "flag.Usage":
 				return prog([]string{"flag"}, "\tflag.Usage()")
+			case "log/slog.Default":
+				return prog([]string{"log/slog"}, "\tslog.Default().Info(\""+tok+"\")")
+			case "log/slog.With":
+				return prog([]string{"log/slog"}, "\tslog.With(\"k\", 1).Info(\""+tok+"\")")
+			case "log/slog.InfoContext", "log/slog.WarnContext", "log/slog.ErrorContext":
+				return prog([]string{"context", "log/slog"}, "\tslog."+c.Name+"(context.Background(), \""+tok+"\")")
+			case "log/slog.Log":
+				return prog([]string{"context", "log/slog"}, "\tslog.Log(context.Background(), slog.LevelWarn, \""+tok+"\")")
 			}
 			return prog([]string{c.Pkg}, "\t"+path.Base(c.Pkg)+"."+c.Name+methodArgs(c.Name))
 		}
@@ -433,7 +513,7 @@ func (c caseT) ref() string {
 	switch c.Kind {
 	case "exit":
 		switch {
-		case c.What == "flagset" && c.Name == "ContinueOnError":
+		case (c.What == "flagset" || c.What == "flagsetinit") && c.Name == "ContinueOnError":
 			return "returns"
 		case c.What == "fn" && c.Pkg == "flag":
 			return "returns"
@@ -449,7 +529,7 @@ func (c caseT) ref() string {
 			return "optStdin"
 		case c.Pkg == "fmt":
 			return "optStdout"
-		case c.Pkg == "log":
+		case c.Pkg == "log", c.Pkg == "log/slog":
 			return "optStderr"
 		case c.Pkg == "os" && c.Name == "Args":
 			return "args"
@@ -484,6 +564,10 @@ func normPath(p string) string {
 }
 
 func forbiddenNorm(p string) bool {
+	// relative spellings included: without a source tree `import "./unsafe"` must fail like `import "unsafe"`
+	for strings.HasPrefix(p, "./") || strings.HasPrefix(p, "../") {
+		p = p[strings.IndexByte(p, '/')+1:]
+	}
 	n := normPath(p)
 	return n == "unsafe" || n == "syscall" || n == "os/exec"
 }
